@@ -66,6 +66,7 @@ fn rewrite_value(rules: &[(String, char)], line: &str) -> f64 {
             'A' => vec!["foo"],
             'B' => vec!["foo", "bar"],
             'E' => vec!["qux"],
+            'G' => vec!["crate"],
             _ => vec![],
         }
     };
@@ -74,6 +75,7 @@ fn rewrite_value(rules: &[(String, char)], line: &str) -> f64 {
             'A' if n != 7.0 => Some(n + 100.0),
             'B' => Some(n + 200.0),
             'E' => Some(n + 400.0),
+            'G' => Some(n + 600.0),
             _ => None,
         }
     };
@@ -155,6 +157,20 @@ impl RuleTrait for PairRule {
     }
 }
 
+/// rule G: the number bound to the field 'perCrate', plus 600
+struct NamedFieldRule;
+impl RuleTrait for NamedFieldRule {
+    fn name(&self) -> String {
+        "G".to_string()
+    }
+    fn call(&self, _: &SmartCalcConfig, fields: &BTreeMap<String, TokenType>) -> Option<TokenType> {
+        match fields.get("perCrate") {
+            Some(TokenType::Number(n, _)) => Some(TokenType::Number(n + 600.0, NumberType::Decimal)),
+            _ => None,
+        }
+    }
+}
+
 /// rule F: the amount of a quantity of the user family t1, plus 500
 struct UnitRule;
 impl RuleTrait for UnitRule {
@@ -205,6 +221,8 @@ fn rule(id: char) -> (Vec<String>, Rc<dyn RuleTrait>) {
         'T' => (vec!["{NUMBER:n} times {NUMBER:m}".into(), "sum {NUMBER:n} {NUMBER:m}".into()], Rc::new(PairRule)),
         // a typed unit field that names the user family t1 (the family may be added later)
         'F' => (vec!["deposit {DYNAMIC_TYPE:q:t1}".into()], Rc::new(UnitRule)),
+        // a field name with capital letters: the rule reads the field by the name as written
+        'G' => (vec!["crate {NUMBER:perCrate}".into()], Rc::new(NamedFieldRule)),
         // an empty pattern text next to a usable one: add_rule takes any list of texts
         'E' => (vec!["".into(), "qux {NUMBER:n}".into()], Rc::new(NumRule { name: "E", add: 400.0, decline: None })),
         // same name as A, other pattern (with a capital letter) and result
@@ -220,6 +238,7 @@ fn rule_name(id: char) -> &'static str {
         'D' => "D",
         'E' => "E",
         'F' => "F",
+        'G' => "G",
         _ => "C",
     }
 }
@@ -534,15 +553,15 @@ impl Prop for C18 {
         f.push(Family::new(
             "pattern-restart",
             Mode::Full,
-            "every sequence of 1..=2 operations over [add A ('foo {NUMBER:n}'), add B ('foo {NUMBER:n}', 'bar {NUMBER:n}'), add E (an empty pattern text and 'qux {NUMBER:n}'), delete A, delete B, delete E], probed with lines in which a word stands directly in front of the matching run: 'foo foo 5', 'bar bar 5', 'foo bar 5', 'bar foo 5', 'qux foo 5', 'foo foo 7', '5 foo foo 5', and with 'qux 5', '1 + 2': the word in front is a plain word whether or not it equals the first word of the pattern",
+            "every sequence of 1..=2 operations over [add A ('foo {NUMBER:n}'), add B ('foo {NUMBER:n}', 'bar {NUMBER:n}'), add E (an empty pattern text and 'qux {NUMBER:n}'), add G ('crate {NUMBER:perCrate}', a field name with a capital letter that the rule reads as written), delete A, delete B, delete E], probed with lines in which a word stands directly in front of the matching run: 'foo foo 5', 'bar bar 5', 'foo bar 5', 'bar foo 5', 'qux foo 5', 'foo foo 7', '5 foo foo 5', and with 'qux 5', '1 + 2', 'crate 5', 'crate 5 + foo 5': the word in front is a plain word whether or not it equals the first word of the pattern",
             move |ch| {
-                let alphabet = [Op::AddRule("en".into(), 'A'), Op::AddRule("en".into(), 'B'), Op::AddRule("en".into(), 'E'), Op::DelRule("en".into(), "A".into()), Op::DelRule("en".into(), "B".into()), Op::DelRule("en".into(), "E".into())];
+                let alphabet = [Op::AddRule("en".into(), 'A'), Op::AddRule("en".into(), 'B'), Op::AddRule("en".into(), 'E'), Op::AddRule("en".into(), 'G'), Op::DelRule("en".into(), "A".into()), Op::DelRule("en".into(), "B".into()), Op::DelRule("en".into(), "E".into())];
                 let len = 1 + ch.choose(2);
                 let mut ops = Vec::new();
                 for _ in 0..len {
                     ops.push(ch.pick(&alphabet).clone());
                 }
-                let line = *ch.pick(&["foo foo 5", "bar bar 5", "foo bar 5", "bar foo 5", "qux foo 5", "foo foo 7", "5 foo foo 5", "qux 5", "1 + 2"]);
+                let line = *ch.pick(&["foo foo 5", "bar bar 5", "foo bar 5", "bar foo 5", "qux foo 5", "foo foo 7", "5 foo foo 5", "qux 5", "1 + 2", "crate 5", "crate 5 + foo 5"]);
                 Some(Case { ops, pooled: false, bfs: None, full_probe: false, restart_probe: Some(line.to_string()), zero_line: None })
             },
         ));
@@ -994,6 +1013,7 @@ impl C18 {
                             'D' => low.contains("dozen"),
                             'F' => low.contains("deposit"),
                             'E' => low.contains("qux"),
+                            'G' => low.contains("crate"),
                             _ => low.contains("baz"),
                         }
                 });
